@@ -159,6 +159,8 @@ theorem cliqueCount_is_textbook (n : Nat) (adj : Nat → Nat → Bool) (k : Nat)
     cliqueCount n adj k = (((Finset.range n).powersetCard k).filter (CliqueSet adj)).card :=
   cliqueCount_eq_card n adj k
 
+/-- for a symmetric adjacency predicate "pairwise adjacent" does not depend on the direction in which the pairs
+    are read -/
 theorem cliqueSet_symm (adj : Nat → Nat → Bool) (hsym : ∀ a b, adj a b = adj b a) (s : Finset Nat) :
     CliqueSet adj s ↔ ∀ a ∈ s, ∀ b ∈ s, a ≠ b → adj a b = true := by
   unfold CliqueSet
@@ -306,6 +308,7 @@ theorem core_exact_spec_csr (n : Nat) (adj : Nat → Nat → Bool) (hsym : ∀ a
       rw [List.getD_eq_getElem?_getD, List.getElem?_eq_getElem hi2]; rfl
     rw [e1, e2, hc1, tab_getD, if_pos hi, hu]
 
+/-- `core_exact_spec_csr` on the canonical CSR structure of the graph -/
 theorem core_exact_spec (n : Nat) (adj : Nat → Nat → Bool) (hsym : ∀ a b, adj a b = adj b a) :
     computeCore (csrOfEdge n adj).indptr (csrOfEdge n adj).indices =
       some (tab n fun v => (coreNumberSpec n adj v : Int)) :=
